@@ -2,7 +2,11 @@
 package main
 
 import (
+	"context"
 	"fmt"
+	"sync"
+
+	"github.com/yandex/pandora/core"
 	"net"
 	"net/http"
 	"strconv"
@@ -455,6 +459,87 @@ scenarios:
 	res.Count("http_scenario_samples", int64(len(samples)))
 }
 
+// ---------- (6) ids under concurrent Acquire ----------
+
+// idStress: 32 goroutines acquire HTTP ammo from one provider at the same time (what N instances
+// do); every sample id attached to the ammo must be distinct.
+func idStress(res *vkit.Result, format string, preload bool, total int) {
+	var b strings.Builder
+	for i := 0; i < 50; i++ {
+		switch format {
+		case "uri":
+			fmt.Fprintf(&b, "/i%d t\n", i)
+		case "http/json":
+			fmt.Fprintf(&b, `{"host":"h","method":"GET","uri":"/i%d","tag":"t"}`+"\n", i)
+		}
+	}
+	path := vkit.WriteMem([]byte(b.String()))
+	defer vkit.RemoveMem(path)
+	conf := map[string]any{"type": format, "file": path, "limit": total}
+	if preload {
+		conf["preload"] = true
+	}
+	p, err := vkit.NewProvider(conf)
+	c := map[string]any{"check": "ids under concurrent Acquire", "format": format, "preload": preload, "ammo": total}
+	if err != nil {
+		res.Violate("C10/ids/provider", fmt.Sprintf("provider rejected: %v", err), c)
+		return
+	}
+	ctx, cancel := context.WithCancel(context.Background())
+	defer cancel()
+	done := make(chan error, 1)
+	go func() { done <- p.Run(ctx, core.ProviderDeps{Log: vkit.NopLog()}) }()
+	const workers = 32
+	ids := make([][]uint64, workers)
+	var wg sync.WaitGroup
+	start := make(chan struct{})
+	for w := 0; w < workers; w++ {
+		wg.Add(1)
+		go func(w int) {
+			defer wg.Done()
+			<-start
+			for {
+				a, ok := p.Acquire()
+				if !ok {
+					return
+				}
+				if ha, ok := a.(interface{ ID() uint64 }); ok {
+					ids[w] = append(ids[w], ha.ID())
+				}
+				p.Release(a)
+			}
+		}(w)
+	}
+	close(start)
+	wg.Wait()
+	cancel()
+	<-done
+	seen := map[uint64]int{}
+	n := 0
+	for _, l := range ids {
+		for _, id := range l {
+			seen[id]++
+			n++
+		}
+	}
+	if n != total {
+		res.Violate("C10/ids/count", fmt.Sprintf("%d ammo acquired, limit %d", n, total), c)
+	}
+	dups := 0
+	var example uint64
+	for id, k := range seen {
+		if k > 1 {
+			dups++
+			example = id
+		}
+	}
+	if dups > 0 {
+		res.Violate("C10/ids/duplicate", fmt.Sprintf("%d of %d sample ids were handed out more than once under 32 concurrent consumers (e.g. id %d × %d; %d distinct ids)", dups, n, example, seen[example], len(seen)), c)
+	}
+	res.Count("ids_checked_under_concurrency", int64(n))
+	res.Eval(vkit.JSON(c), true)
+}
+
 func main() {
 	vkit.Fs()
 	res := vkit.NewResult("exhaustive tables: every HTTP status 200…599 through the http (and connect, http over TLS) guns with 1–8 instances; failure kinds (refused, reset, close before response, response-header timeout, short body, garbage status line); tag/auto-tag settings × URI path shapes; every gRPC status 0…16 plus 17 and 99 against the documented mapping; scenario guns (HTTP: scenario.step-name, gRPC: scenario.call-tag) with multiplicities; distinct = distinct sub-checks; all non-trivial")
@@ -469,6 +554,10 @@ func main() {
 	tags(res)
 	grpcCodes(res)
 	httpScenario(res)
+	for rep := 0; rep < vkit.N(3, 30); rep++ {
+		idStress(res, "uri", rep%2 == 1, 60000)
+		idStress(res, "http/json", rep%2 == 0, 60000)
+	}
 	res.Set("exhaustive", true)
 	if res.Counter("http_status_samples") < 1200 || res.Counter("grpc_status_samples") < 19 || res.Counter("tag_samples") < 50 {
 		res.Inconclusive(true, "too few samples judged")
